@@ -254,6 +254,9 @@ func (p *Prog) newFuncCtx(key string) (*FuncCtx, error) {
 // verifyFunc generates all obligations of one function under contract.
 func (p *Prog) verifyFunc(key string) (rep *FuncReport) {
 	rep = &FuncReport{Key: key}
+	// bound-variable names restart per function: the script of a function must not depend on which
+	// functions were processed before it (solvers are sensitive to symbol names)
+	quantSeq = 0
 	fx, err := p.newFuncCtx(key)
 	if err != nil {
 		rep.Err, rep.Drift = err.Error(), true
